@@ -4,10 +4,21 @@ C05 — grammar text parses to the tree its syntax prescribes.
 The parser model (`Model/Parse.lean`) is compared with the real parser on every run (trees, spans,
 error locations, exactly).  Proved here: the facts about layout that the round-trip theorems rest
 on — skipping blanks is idempotent, comments run to the end of their line, and blanks never start
-with a character that can begin an item.  `pp_parse` (every normal-form tree printed with minimal
-parentheses parses back to itself) is the open growth target.
+with a character that can begin an item — and, for the two lexers (`Proofs/Lexer.lean`), the round
+trip itself, for every text:
+  * `terminal_is_decoder` — the three-phase loop of `terminal` (regular run / escapes / fewer than three
+    dots, repeated) reads exactly what a character-by-character reference decoder reads, for every
+    input; `terminal_roundtrip` / `terminal_roundtrip_escape_all` — every non-empty text over the
+    permitted characters, printed with the fewest escapes (a dot is escaped only as the third of a
+    run) or with every special character escaped, followed by anything that cannot continue a
+    literal, is read back as that text and exactly its characters are consumed;
+  * `description_roundtrip` — every text printed between double quotes with `"` and `\` escaped is read
+    back as that text.
+`pp_parse` (every normal-form tree printed with minimal parentheses parses back to itself: the
+operator ladder) is the open growth target.
 -/
 import Complgen.Model.Parse
+import Complgen.Proofs.Lexer
 namespace Complgen.Props.C05
 open Complgen Complgen.Parse
 
@@ -52,5 +63,37 @@ theorem mb0Aux_item (c : Char) (cs : List Char)
 /-- Non-vacuity: the model parses a grammar with every operator, and reports where an unparsable
 statement starts. -/
 example : (Parse.parse "cmd a|b;".toList).toOption.isSome = true := by decide
+
+/-- the literal lexer is the character-by-character reference decoder `dec'`, on every input -/
+theorem terminal_is_decoder (s : PState) :
+    terminal s = match dec' s.rest with
+      | none => none
+      | some (t, n) => if t.isEmpty then none else some (s.adv n, String.ofList t) :=
+  terminal_eq_dec s
+
+/-- **Literals round-trip** (fewest escapes): whatever precedes in `s`'s position bookkeeping, a
+printed literal followed by a terminating character is read back exactly -/
+theorem terminal_roundtrip (t rest : List Char) (s : PState) (ht : t ≠ [])
+    (hperm : ∀ c ∈ t, isRegular c = true ∨ isEsc c = true) (hrest : Terminates rest)
+    (hs : s.rest = escT 0 t ++ rest) :
+    terminal s = some (s.adv (escT 0 t).length, String.ofList t) :=
+  Parse.terminal_roundtrip t rest s ht hperm hrest hs
+
+/-- the same with every special character escaped -/
+theorem terminal_roundtrip_escape_all (t rest : List Char) (s : PState) (ht : t ≠ [])
+    (hperm : ∀ c ∈ t, isRegular c = true ∨ isEsc c = true) (hrest : Terminates rest)
+    (hs : s.rest = escAll t ++ rest) :
+    terminal s = some (s.adv (escAll t).length, String.ofList t) :=
+  Parse.terminal_roundtrip_all t rest s ht hperm hrest hs
+
+/-- **Descriptions round-trip**: any text at all, with `"` and `\` escaped -/
+theorem description_roundtrip (d rest : List Char) (s : PState) (hs : s.rest = '"' :: escD d ++ '"' :: rest) :
+    description s = some (s.adv ((escD d).length + 2), String.ofList d) :=
+  Parse.description_roundtrip d rest s hs
+
+/-- Non-vacuity: `a.b` followed by a blank meets the premises of `terminal_roundtrip` -/
+example : Terminates [' '] ∧ (∀ c ∈ ['a', '.', 'b'], isRegular c = true ∨ isEsc c = true) ∧
+    escT 0 ['a', '.', 'b'] = ['a', '.', 'b'] ∧ escT 0 ['.', '.', '.'] = ['.', '.', '\\', '.'] := by
+  refine ⟨.inr ⟨' ', [], rfl, by decide, by decide, by decide⟩, by decide, by decide, by decide⟩
 
 end Complgen.Props.C05
